@@ -759,7 +759,27 @@ def _handle_event_matching(
             and event.arguments["flow_id"] == flow_state.flow_id
             and head.position == 0
         ):
-            _start_flow(state, flow_state, event.arguments)
+            try:
+                _start_flow(state, flow_state, event.arguments)
+            except Exception as e:
+                # A runtime error while starting a flow (e.g. too many parameters) must not
+                # stop the processing of the event for all the other flows: only the flow
+                # that could not be started fails (and with it the flow that started it)
+                log.warning(
+                    "Flow '%s' failed to start due to Colang runtime exception: %s",
+                    flow_state.flow_id,
+                    e,
+                    exc_info=True,
+                )
+                colang_error_event = Event(
+                    name="ColangError",
+                    arguments={
+                        "type": str(type(e).__name__),
+                        "error": str(e),
+                    },
+                )
+                _push_internal_event(state, colang_error_event)
+                _abort_flow(state, flow_state, head.matching_scores)
         elif event.name == InternalEvents.FLOW_STARTED:
             # Add started flow to active scopes
             # TODO: Make this independent from matching to FlowStarted event since otherwise it could be added elsewhere
